@@ -257,6 +257,26 @@ def build(decl, extra_options=None):
     opts = make_options(decl["options"], **(extra_options or {}))
     if decl["base"] == "function":
         return build_function(decl, opts)
+    form = decl.get("options_form")
+    if form:
+        # the documented class form of options: `class __options__(Options): addition = False ...`; with "class-inherit" the
+        # class derives from a user's shared Options subclass that sets OTHER values for the same options (the inner ones govern)
+        from utype import Options
+        kw = dict(decl["options"], **(extra_options or {}))
+        if kw.get("addition") == "int":
+            kw["addition"] = int
+        parent = Options
+        if form == "class-inherit":
+            flipped = {}
+            for k, v in kw.items():
+                if isinstance(v, bool):
+                    flipped[k] = not v
+                elif k == "addition":
+                    flipped[k] = True if v in (False, None) else False
+                elif k in ("max_params", "min_params", "max_errors", "max_depth") and isinstance(v, int):
+                    flipped[k] = v + 7
+            parent = type(Options)("ProjectOptions", (Options,), flipped)
+        opts = type(Options)("__options__", (parent,), kw)
     basecls = utype.Schema if decl["base"] == "Schema" else utype.DataClass
     name = "D%d" % next(_uid)
     def namespace(fields, qual):
@@ -405,6 +425,8 @@ def describe(decl):
     d = {"base": decl["base"], "options": decl["options"], "fields": [fd(f) for f in decl["fields"]]}
     if decl.get("parent"):
         d["inherits_from_a_base_declaring"] = [fd(f) for f in decl["parent"]]
+    if decl.get("options_form"):
+        d["options_written_as"] = {"class": "class __options__(Options): ...", "class-inherit": "class __options__(ProjectOptions): ... (ProjectOptions sets other values)"}[decl["options_form"]]
     return d
 
 
